@@ -652,22 +652,34 @@ func tkvItems(bd *lib.Binder, l []*storage.TKeyValue) []string {
 // of five classes, then asks, per version, every range consumer for intervals inside one class,
 // across classes and over the whole TKey space; finally two DeleteRange calls (cross-class, whole
 // space) on an open version.  only: "" all, "v<n>" that version case, "d<n>" that DeleteRange case.
-func multiClass(run *lib.Run, seed uint64, n int, thorough bool, only string) {
+//
+// received: the repo is first taken through the receiving end of a push (datastore.VerifReceiveRepo,
+// then a restart), which hands out new local version ids in an order unrelated to ancestry — an
+// ancestor can have a larger id than its descendant — and the data is written at every version, as a
+// push transfers it.
+func multiClass(run *lib.Run, seed uint64, n int, thorough bool, only string, received bool) {
 	rng := lib.NewRand(seed)
-	h, err := kvhist.New(rng, fmt.Sprintf("mc%d", n))
+	name := fmt.Sprintf("mc%d", n)
+	if received {
+		name = fmt.Sprintf("rc%d", n)
+	}
+	h, err := kvhist.New(rng, name)
 	if err != nil {
 		panic(err)
 	}
 	w := &world{h: h, special: "multiclass"}
-	d, err := datastore.GetDataByUUIDName(dvid.UUID(h.Root), dvid.InstanceName(h.Inst))
-	if err != nil {
-		panic(err)
+	bind := func() {
+		d, err := datastore.GetDataByUUIDName(dvid.UUID(h.Root), dvid.InstanceName(h.Inst))
+		if err != nil {
+			panic(err)
+		}
+		w.data = d
+		w.inst = uint32(d.InstanceID())
+		if w.db, err = datastore.GetOrderedKeyValueDB(d); err != nil {
+			panic(err)
+		}
 	}
-	w.data = d
-	w.inst = uint32(d.InstanceID())
-	if w.db, err = datastore.GetOrderedKeyValueDB(d); err != nil {
-		panic(err)
-	}
+	bind()
 	uni := mcUniverse()
 	ctr := 0
 	write := func(v, count int) {
@@ -684,15 +696,73 @@ func multiClass(run *lib.Run, seed uint64, n int, thorough bool, only string) {
 			}
 		}
 	}
-	write(1, 9)
-	h.Commit(1)
-	h.Child("branch", []int{1})     // 2
-	h.Child("newversion", []int{1}) // 3
-	write(2, 5)
-	write(3, 5)
-	h.Commit(2)
-	h.Child("newversion", []int{2}) // 4, open
-	write(4, 3)
+	openV := 4
+	vs := []int{4, 2, 1, 3}
+	if !received {
+		write(1, 9)
+		h.Commit(1)
+		h.Child("branch", []int{1})     // 2
+		h.Child("newversion", []int{1}) // 3
+		write(2, 5)
+		write(3, 5)
+		h.Commit(2)
+		h.Child("newversion", []int{2}) // 4, open
+		write(4, 3)
+	} else {
+		h.Commit(1)
+		h.Child("branch", []int{1})     // 2
+		h.Child("newversion", []int{1}) // 3
+		h.Commit(2)
+		h.Commit(3)
+		h.Child("newversion", []int{2}) // 4
+		h.Child("merge", []int{3, 2})   // 5
+		h.Commit(4)
+		h.Child("newversion", []int{4}) // 6, open
+		openV = 6
+		vs = []int{6, 4, 2, 1, 5}
+		// the order in which the receiver hands out its version ids: a random permutation with
+		// at least one ancestor after its descendant
+		order := make([]dvid.UUID, len(h.UUIDs))
+		perm := make([]int, len(h.UUIDs))
+		for j := range perm {
+			perm[j] = j
+		}
+		for j := len(perm) - 1; j > 0; j-- {
+			k := rng.Intn(j + 1)
+			perm[j], perm[k] = perm[k], perm[j]
+		}
+		sorted := true
+		for j := 1; j < len(perm); j++ {
+			if perm[j] < perm[j-1] {
+				sorted = false
+			}
+		}
+		if sorted {
+			for j, k := 0, len(perm)-1; j < k; j, k = j+1, k-1 {
+				perm[j], perm[k] = perm[k], perm[j]
+			}
+		}
+		for j, pj := range perm {
+			order[j] = dvid.UUID(h.UUIDs[pj])
+		}
+		if err := datastore.VerifReceiveRepo(dvid.UUID(h.Root), "", order); err != nil {
+			panic(err)
+		}
+		datastore.CloseReopenTest()
+		bind()
+		inv := 0
+		for a := 1; a <= len(h.UUIDs); a++ {
+			for b := a + 1; b <= len(h.UUIDs); b++ {
+				if w.verID(a) > w.verID(b) {
+					inv++
+				}
+			}
+		}
+		run.Count(fmt.Sprintf("received-repo:creation-order-inversions:%d", inv))
+		for v := 1; v <= len(h.UUIDs); v++ {
+			write(v, 4)
+		}
+	}
 
 	minT := func(c byte) storage.TKey { return storage.MinTKey(storage.TKeyClass(c)) }
 	maxT := func(c byte) storage.TKey { return storage.MaxTKey(storage.TKeyClass(c)) }
@@ -730,9 +800,16 @@ func multiClass(run *lib.Run, seed uint64, n int, thorough bool, only string) {
 		return l
 	}
 
+	kindName := "multiclass"
+	if received {
+		kindName = "received"
+	}
 	nq := 6
 	if thorough {
 		nq = 9
+	}
+	if received && !thorough {
+		nq = 4
 	}
 	for v := 1; v <= len(h.UUIDs); v++ {
 		r := lib.NewRand(seed*131 + uint64(v))
@@ -813,18 +890,17 @@ func multiClass(run *lib.Run, seed uint64, n int, thorough bool, only string) {
 		}
 		term := bd.Wrap(fmt.Sprintf("CMulti %d %d\n   %s\n   %s\n   [%s]\n   [%s]", w.inst, w.verID(v), coqStore(bd, entries), table,
 			strings.Join(pts, "; "), strings.Join(qs, ";\n    ")))
-		run.Add("multiclass", term, jcase{Kind: "multiclass", Seed: seed, Special: fmt.Sprintf("v%d", v)}, fmt.Sprintf("multiclass/%d/%d", seed, v))
+		run.Add(kindName, term, jcase{Kind: kindName, Seed: seed, Special: fmt.Sprintf("v%d", v)}, fmt.Sprintf("%s/%d/%d", kindName, seed, v))
 	}
 
-	// DeleteRange across classes and over the whole space, on the open version 4
+	// DeleteRange across classes and over the whole space, on the open version
 	dels := []iv{{minT(mcClasses[1]), maxT(mcClasses[3]), "cross-class-bounds"}, {minT(storage.TKeyMinClass), maxT(storage.TKeyMaxClass), "whole-space"}}
 	for j, q := range dels {
 		emit := only == "" || only == fmt.Sprintf("d%d", j+1)
 		if only != "" && only[0] == 'v' {
 			break
 		}
-		v := 4
-		vs := []int{4, 2, 1, 3}
+		v := openV
 		bd := lib.NewBinder()
 		before := w.dump()
 		table := w.table(bd, v, before)
@@ -868,7 +944,7 @@ func multiClass(run *lib.Run, seed uint64, n int, thorough bool, only string) {
 		ka := keysIn(minT(storage.TKeyMinClass), maxT(storage.TKeyMaxClass))
 		kin := keysIn(q.lo, q.hi)
 		if j == 0 {
-			write(4, 4) // something to delete for the whole-space call
+			write(openV, 4) // something to delete for the whole-space call
 		}
 		if !emit {
 			continue
@@ -876,7 +952,7 @@ func multiClass(run *lib.Run, seed uint64, n int, thorough bool, only string) {
 		term := bd.Wrap(fmt.Sprintf("CDeleteRange %d %d\n   %s\n   %s\n   %s %s %s\n   %s\n   %s\n   %s\n   %s %s %s\n   []", w.inst, w.verID(v), coqStore(bd, before), table,
 			bd.Bytes(q.lo), bd.Bytes(q.hi), lib.CoqBool(ok), coqStore(bd, after), rb, ra, kb, ka, kin))
 		run.Count("multiclass-delete-range:" + q.kind)
-		run.Add("multiclass-delete", term, jcase{Kind: "multiclass", Seed: seed, Special: fmt.Sprintf("d%d", j+1)}, fmt.Sprintf("multiclass-del/%d/%d", seed, j))
+		run.Add(kindName+"-delete", term, jcase{Kind: kindName, Seed: seed, Special: fmt.Sprintf("d%d", j+1)}, fmt.Sprintf("%s-del/%d/%d", kindName, seed, j))
 	}
 }
 
@@ -998,8 +1074,8 @@ func main() {
 			fmt.Fprintln(os.Stderr, err)
 			os.Exit(2)
 		}
-		if c.Kind == "multiclass" {
-			multiClass(run, c.Seed, 1, o.Thorough(), c.Special)
+		if c.Kind == "multiclass" || c.Kind == "received" {
+			multiClass(run, c.Seed, 1, o.Thorough(), c.Special, c.Kind == "received")
 		} else {
 			doHistory(c.Seed, c.Special, c.Version, c.Kind == "deleterange", c.N)
 		}
@@ -1032,10 +1108,14 @@ func main() {
 		nM = 8
 	}
 	for n := 0; n < nM; n++ {
-		multiClass(run, rng.U64(), n+1, o.Thorough(), "")
+		multiClass(run, rng.U64(), n+1, o.Thorough(), "", false)
+	}
+	// last: a restart replaces the store objects of the earlier sections
+	for n := 0; n < nM; n++ {
+		multiClass(run, rng.U64(), n+1, o.Thorough(), "", true)
 	}
 	run.Finish("c05case",
-		"storage-API section: an instance with TKeys in five classes written by db.Put/db.Delete over a branched DAG, per version GetRange, KeysInRange, ProcessRange, SendKeysInRange for intervals inside one class, across classes and over MinTKey(0)..MaxTKey(255), and DeleteRange across classes and over the whole space; random branched histories (puts, deletes, batch writes, commits, branches, merges; 12 numbered keys plus prefix/extension/neighbour keys; every third history with empty values); per version: db.Get and GET key/k of every key, keys, keyvalues, and intervals with ends drawn from existing keys, their prefixes, extensions and neighbours, the whole space, single keys and empty intervals, through GetRange, KeysInRange, keyrange, keyrangevalues json/tar; one DeleteRange per history; distinct by (history seed, version)",
+		"storage-API sections: a repo taken through the receiving end of a push (version ids not in creation order: ancestors with larger ids than descendants), data written at every version, and a locally created one; an instance with TKeys in five classes written by db.Put/db.Delete over a branched DAG, per version GetRange, KeysInRange, ProcessRange, SendKeysInRange for intervals inside one class, across classes and over MinTKey(0)..MaxTKey(255), and DeleteRange across classes and over the whole space; random branched histories (puts, deletes, batch writes, commits, branches, merges; 12 numbered keys plus prefix/extension/neighbour keys; every third history with empty values); per version: db.Get and GET key/k of every key, keys, keyvalues, and intervals with ends drawn from existing keys, their prefixes, extensions and neighbours, the whole space, single keys and empty intervals, through GetRange, KeysInRange, keyrange, keyrangevalues json/tar; one DeleteRange per history; distinct by (history seed, version)",
 		tail)
 }
 
